@@ -25,7 +25,7 @@ CTypes == <<"recording_set", "dataset", "annotation_set", "annotation_project",
 Switches == {"rec_tags", "rec_notes", "rec_owner", "note_author", "user_roles",
              "ann_tags", "ann_notes", "ann_by", "clip_notes", "shared_tag",
              "tag_pred", "tag_list_only", "has_seq", "seq_depth1", "seq_depth2",
-             "se_other_rec", "se_shared", "two_clips", "empty_clip", "badges", "badge_owner"}
+             "se_other_rec", "se_shared", "two_clips", "shared_clip", "empty_clip", "badges", "badge_owner"}
 
 Kinds == <<"user", "tag", "recording", "clip", "sound_event", "sequence",
            "se_ann", "seq_ann", "clip_ann", "se_pred", "seq_pred", "clip_pred",
@@ -63,6 +63,8 @@ AnnUser(sw) == IF "user_roles" \in sw THEN "u1" ELSE "u3"     \* one user in sev
 DeepSeq(sw) == IF "seq_depth2" \in sw THEN "q3" ELSE IF "seq_depth1" \in sw \/ "seq_depth2" \in sw THEN "q2" ELSE "q1"
 PredSE(sw) == IF "se_shared" \in sw THEN "se1" ELSE "se4"    \* prediction on the annotated sound event or on its own
 Full(sw) == ~("empty_clip" \in sw)
+\* two DISTINCT clip annotations / clip predictions of ONE clip (shared_clip) or of two clips
+SecondClip(sw) == IF "shared_clip" \in sw THEN "c1" ELSE "c2"
 
 \* description of object o: a record of named reference lists (optional single references are 0/1-sequences)
 Desc(o, sw) ==
@@ -94,7 +96,7 @@ Desc(o, sw) ==
                      sound_events |-> IF Full(sw) THEN <<"sea1", "sea2">> \o Opt("se_other_rec" \in sw, "sea3") ELSE <<>>,
                      sequences |-> Opt("has_seq" \in sw /\ Full(sw), "sqa1"),
                      notes |-> IF "clip_notes" \in sw THEN <<NoteBy(sw)>> ELSE <<>>]
-    [] o = "ca2" -> [id |-> o, kind |-> "clip_ann", clip |-> "c2", tags |-> <<>>, sound_events |-> <<>>,
+    [] o = "ca2" -> [id |-> o, kind |-> "clip_ann", clip |-> SecondClip(sw), tags |-> <<>>, sound_events |-> <<>>,
                      sequences |-> <<>>, notes |-> <<>>]
     [] o = "sep1" -> [id |-> o, kind |-> "se_pred", sound_event |-> PredSE(sw),
                       tags |-> Opt("tag_pred" \in sw, "t3") \o Opt("shared_tag" \in sw, "t2")]
@@ -104,7 +106,7 @@ Desc(o, sw) ==
                      sound_events |-> IF Full(sw) THEN <<"sep1", "sep2">> ELSE <<>>,
                      sequences |-> Opt("has_seq" \in sw /\ Full(sw), "sqp1"),
                      tags |-> Opt("tag_pred" \in sw, "t3") \o Opt("tag_pred" \in sw /\ "shared_tag" \in sw, "t1")]
-    [] o = "cp2" -> [id |-> o, kind |-> "clip_pred", clip |-> "c2", sound_events |-> <<>>, sequences |-> <<>>, tags |-> <<>>]
+    [] o = "cp2" -> [id |-> o, kind |-> "clip_pred", clip |-> SecondClip(sw), sound_events |-> <<>>, sequences |-> <<>>, tags |-> <<>>]
     [] o = "m1" -> [id |-> o, kind |-> "match", source |-> <<"sep1">>, target |-> <<"sea1">>]
     [] o = "m2" -> [id |-> o, kind |-> "match", source |-> <<"sep2">>, target |-> <<>>]
     [] o = "m3" -> [id |-> o, kind |-> "match", source |-> <<>>, target |-> <<"sea2">>]
@@ -113,7 +115,9 @@ Desc(o, sw) ==
                      matches |-> IF Full(sw) THEN <<"m1", "m2", "m3">> \o Opt("se_other_rec" \in sw, "m4") ELSE <<>>]
     [] o = "ce2" -> [id |-> o, kind |-> "clip_eval", annotations |-> "ca2", predictions |-> "cp2", matches |-> <<>>]
     [] o = "k1" -> [id |-> o, kind |-> "task", clip |-> "c1",
-                    badges |-> IF "badges" \in sw THEN <<[owner |-> Opt("badge_owner" \in sw, AnnUser(sw))], [owner |-> <<>>]>> ELSE <<>>]
+                    \* an ownerless badge comes BEFORE the owned one and another after it; the owner may appear nowhere else
+                    badges |-> IF "badges" \in sw \/ "badge_owner" \in sw
+                               THEN <<[owner |-> <<>>], [owner |-> Opt("badge_owner" \in sw, AnnUser(sw))], [owner |-> <<>>]>> ELSE <<>>]
     [] o = "k2" -> [id |-> o, kind |-> "task", clip |-> "c2", badges |-> <<>>]
 
 Second(sw) == "two_clips" \in sw
